@@ -283,8 +283,11 @@ class graph(Graph):
             oldnode.misc["cut"] = cutdone
             v = super(graph, self).add_vertex(v)  # ! avoid recursion for add_edge
             mz.write(vaddr, v)
+            # successors of the block before the split (the fall-through
+            # edge added next must not be moved along with them):
+            succ = list(oldnode.N(+1))
             self.add_edge(link(oldnode, v))
-            for n in oldnode.N(+1):
+            for n in succ:
                 self.add_edge(link(v, n))
                 self.remove_edge(oldnode.e_to(n))
             return v
